@@ -99,6 +99,13 @@ def monitor(ctx, extended=False):
         inp = {'args': list(a)}
         ctx.count('evaluations')
         try:
+            if ctx.rng.random() < 0.2:
+                # history: a convergence study with small iteration budgets on the same slurry comes first (the project's tests call max_steps=5);
+                # the default-budget value asked afterwards is the one the property speaks about
+                pre = sorted(ctx.rng.sample(range(1, 10), ctx.rng.randint(1, 4)))
+                for ms in pre:
+                    F.LDV(a[0], *a[1:], max_steps=ms)
+                inp['earlier_calls_max_steps'] = pre
             vals = [F.LDV(v, *a[1:]) for v in (a[0], 0.1, 1.0, 4.3, 10.0)]
             if not all(is_real_finite(x) and x > 0 for x in vals):
                 ctx.violation(f'LDV not finite and positive: {vals}', inp, key='positive')
